@@ -1,7 +1,7 @@
 SPECIFICATION Spec
 CONSTANTS
   Conns = {1, 2}
-  Kinds = {"server", "out", "in"}
+  Kinds = {"out", "in"}
   Obfs = {FALSE}
   SlowListener = TRUE
   GuardAcceptFinish = TRUE
@@ -11,7 +11,7 @@ CONSTANTS
   ClosingReportGuarded = TRUE
   MaxLives = 1
   MaxCalls = 1
-  MaxMsgs = 1
+  MaxMsgs = 0
 INVARIANT TypeOK
 INVARIANT Monotone
 INVARIANT ClosedOnce
